@@ -150,11 +150,25 @@ def work(item):
                 except Exception:
                     ok = False
             if not ok:
-                res.viol(ID, 'string-clean-differs', 'stdnum.util', 'clean', {'kind': 'string', 's': s, 'd': d},
+                # code points are stored as numbers too: JSON joins a high and a low surrogate into one character
+                res.viol(ID, 'string-clean-differs', 'stdnum.util', 'clean', {'kind': 'string', 's': s, 'd': d, 'cps': [ord(c) for c in s]},
                          'clean(%r, %r) = %r, per-character image filtered by deletechars = %r (or not idempotent)' % (s, d, o, e_),
                          'order/count preserved, deleted characters absent, idempotent',
                          excinfo='len%d' % len(s), devclass='d%d' % len(d), rank=[len(s), len(d), s + d])
             return 1 if (isinstance(o, str) and o != s) else 0
+        if key == 0:
+            # two lone surrogate code points that would form, as a UTF-16 pair, a character the table maps (or any
+            # astral digit) are two characters: they stay two and unchanged
+            import unicodedata
+            astral = [c for c in changed if ord(c) > 0xffff]
+            astral += [chr(cp) for cp in range(0x10000, 0x1fbfa) if unicodedata.category(chr(cp)) == 'Nd' and chr(cp) not in img][::7]
+            for c in astral:
+                v_ = ord(c) - 0x10000
+                hi, lo = chr(0xd800 + (v_ >> 10)), chr(0xdc00 + (v_ & 0x3ff))
+                for s_ in (hi + lo, '1' + hi + lo + 'A', lo + hi, hi + hi + lo):
+                    for d in ('', ' -', '1'):
+                        n += 1
+                        nt += one(s_, d)
         cnt = 0
         for a in alpha:
             cnt += 1
@@ -227,6 +241,17 @@ def work(item):
                 o = outcome(m.validate, t)
                 if o[0] == 'ok' and t not in more and len(more) < 8:
                     more.append(t)
+        # ... and the written seed with its separators replaced by every other ASCII separator the format accepts (a
+        # separator in the middle where it has none): each ASCII separator has its own look-alikes
+        more2 = []
+        for s, v in sv[:2]:
+            seps = [ch for ch in dict.fromkeys(s) if ch in " -./:,'*"]
+            for alt in " -./:,'*":
+                cands = [s.replace(sp, alt) for sp in seps if sp != alt] or [s[:len(s) // 2] + alt + s[len(s) // 2:]]
+                for t in cands[:1]:
+                    if t != s and t not in more and t not in more2 and len(more2) < 8 and outcome(m.validate, t) == ('ok', v):
+                        more2.append(t)
+        more = more + more2
         for s, v in list(sv) + [(t, t) for t in more]:
             for base in dict.fromkeys((s, v)):
                 ref = outcome(m.validate, base)
@@ -315,6 +340,8 @@ def replay(case):
         from stdnum.util import clean
         img = image_table()
         s, d = case['s'], case['d']
+        if 'cps' in case:
+            s = ''.join(chr(cp) for cp in case['cps'])
         try:
             o = clean(s, d)
         except Exception as e:  # noqa: B902
